@@ -395,6 +395,8 @@ def check(ctx):
     run.check(has_stmt("_kw['temporal_format_property'] = self.temporal_format_property", p1.node) or
               has_expr('__F(..., temporal_format_property=self.temporal_format_property)', p1.node), 'TFP', p1.where,
               p1.qualname, 'writer gets temporal_format_property', 'the writer is not told about temporal_format_property')
+    # what load() reads first is the descriptor: it must be the one of this dump
+    commits.descriptor_never_skipped(ctx)
     run.trusted += ['LF2 tabulator sorts the keys of JSON object rows', 'LF3 csv.DictWriter without dialect arguments uses csv.excel '
                     '(attribute values read from the stdlib)', 'LF4 default missingValues is [""]',
                     'str(True) / str(False) as evaluated by the analyser\'s interpreter']
